@@ -526,13 +526,13 @@ class DiskFile(VirtualFileContainer):
         file_data = []
         chunk_size = DiskConstants.HALF_TRACK_LEN
 
-        if len(self.buffer[pointer:]) < data_length:
-            raise VirtualFileValidationError("Unable to read data - insufficient bytes in buffer")
-
         # Skip over preamble if it exists
         if preamble:
             pointer += preamble.length
             chunk_size -= preamble.length
+
+        if len(self.buffer[pointer:]) < min(data_length, chunk_size):
+            raise VirtualFileValidationError("Unable to read data - insufficient bytes in buffer")
 
         # Check to see if we are reading more than one granule
         if data_length > chunk_size:
